@@ -148,7 +148,9 @@ impl Scenario for Sub {
     }
     fn n_runs(&self, tier: Tier) -> u64 {
         let n = self.inner.n_runs(tier);
-        (n / self.frac.max(1)).max(self.min.min(n))
+        // quick: 1/frac of the batch; thorough: 1/(4 frac) (both profiles run it, one after the other)
+        let f = if tier == Tier::Thorough { 4 * self.frac.max(1) } else { self.frac.max(1) };
+        (n / f).max(self.min.min(n))
     }
     fn run(&self, seed: u64, tier: Tier, i: u64, out: &mut RunOut) -> Value {
         self.inner.run(seed, tier, i, out)
